@@ -911,7 +911,13 @@ func (a *Agent) gatherCandidatesSrflx(ctx context.Context, urls []*stun.URI, net
 		go func() {
 			select {
 			case <-cancelCtx.Done():
-				return
+				// Either this function returned, or the gather cycle itself was
+				// canceled (Restart or Close): then abort the STUN exchange, which
+				// is otherwise only bounded by the read deadline and not at all
+				// while the socket write is blocked.
+				if ctx.Err() != nil {
+					_ = conn.Close()
+				}
 			case <-a.loop.Done():
 				_ = conn.Close()
 			}
